@@ -76,6 +76,9 @@ KINDS = (
     ("class name bound to a non-type", CallTraceRow(M, "mod_func", A(a=(M, "NOT_A_FUNCTION")), None, None), False),
     ("class name bound to a function", CallTraceRow(M, "mod_func", A(a=(M, "no_args")), None, None), False),
     ("function defined in a local scope", CallTraceRow(M, "outer_closure.<locals>.inner", "{}", None, None), False),
+    ("method removed, name now resolves to object's slot wrapper", CallTraceRow(M, "Base.__eq__", "{}", None, None), False),
+    ("method now a functools.cached_property", CallTraceRow(M, "WithCached.cached", "{}", None, None), False),
+    ("function now a builtin type's method descriptor", CallTraceRow("builtins", "str.upper", "{}", None, None), False),
     ("element class removed inside a generic",
      CallTraceRow(M, "mod_func", json.dumps({"a": {"module": "typing", "qualname": "List", "elem_types": [{"module": "vfix.classes", "qualname": "Gone"}]}}), None, None), False),
 )
